@@ -143,6 +143,48 @@ partial def randomWalk {St Loc β} (M : Machine St Loc Int β) (nSinks len : Nat
     | none => break
   return path.reverse
 
+/-- LONG deterministic walks (counts in the hundreds: counters that wrap or saturate are out of reach of short scripts).
+`mode 0` "pump": greet whatever waits to greet, return from whatever is open, and at top level alternately pull and let the first live
+upstream deliver, for `rounds` rounds, then end the upstreams.  `mode 1` "nested pulls": as 0, but inside every data delivery the sink
+first pulls `burst` times before returning (a sink like `for_each` re-pulling, or many sinks of a shared source pulling in turn). -/
+partial def longWalk {St Loc β} (M : Machine St Loc Int β) (nSinks rounds burst mode : Nat) : List (Move Int) := Id.run do
+  let mut s := Sys.init M
+  let mut path : List (Move Int) := []
+  let mut round := 0
+  let mut inBurst := 0
+  let mut wantPull := true
+  for _ in [0:(rounds * (burst + 8) + 50)] do
+    let nexts := legalMoves M nSinks s
+    if nexts.isEmpty then break
+    let find (p : Move Int → Bool) := nexts.find? (fun (m, _) => p m)
+    let isGreet : Move Int → Bool := fun m => match m with | .call (.srcGreet _) => true | _ => false
+    let isSub : Move Int → Bool := fun m => match m with | .call (.subscribe 0) => true | _ => false
+    let isPull : Move Int → Bool := fun m => match m with | .call (.sinkUp 0 .pull) => true | _ => false
+    let isData : Move Int → Bool := fun m => match m with | .call (.srcDown _ (.data _)) => true | _ => false
+    let isTerm : Move Int → Bool := fun m => match m with | .call (.srcDown _ .term) => true | _ => false
+    let isRet : Move Int → Bool := fun m => match m with | .ret => true | _ => false
+    let inData := match s.stack with | .wait (.down _ (.data _)) _ :: _ => true | _ => false
+    let choice :=
+      if let some c := find isGreet then some c
+      else if mode == 1 && inData && inBurst < burst then
+        match find isPull with | some c => some c | none => find isRet
+      else if let some c := find isRet then some c
+      else if let some c := find isSub then some c
+      else if round ≥ rounds then find isTerm
+      else if wantPull then (match find isPull with | some c => some c | none => find isData)
+      else (match find isData with | some c => some c | none => find isPull)
+    match choice with
+    | none => break
+    | some (m, s2) =>
+      if isPull m && inData then inBurst := inBurst + 1
+      if isRet m && inData then inBurst := 0
+      if s.stack.isEmpty && (isPull m || isData m) then
+        wantPull := !wantPull
+        round := round + 1
+      path := m :: path
+      s := s2
+  return path.reverse
+
 /-- trace (oldest first) of a script on the model, as text -/
 def traceTxt {St Loc β} (M : Machine St Loc Int β) (fb : β → String) (ms : List (Move Int)) : String :=
   match runMoves M (Sys.init M) ms with
